@@ -164,7 +164,7 @@ func (r *real) ExecHint(line string) (out string, twinLine string) {
 				}
 			}
 		}
-		return fmt.Sprintf("res requeue=%s err=%s effects=%d %s", res.Requeue, errS, res.Effects, s.State()), twinLine
+		return fmt.Sprintf("res requeue=%s err=%s effects=%d att=%d %s", res.Requeue, errS, res.Effects, res.Attempts, s.State()), twinLine
 	case "v2.state":
 		return s.State(), line
 	case "v2.drain":
